@@ -153,11 +153,11 @@ theorem G17_construction_never_panics (b : Glue.Builder) (seeds : List Nat) :
       1 ≤ sh.rowBytes ∧ sh.resetAt = b.counters ∧ sh.maxWeight = b.cacheWeight := by
   intro hv
   obtain ⟨h1, _, _, _, _, _, h7, h8⟩ := hv
-  exact ⟨_, Glue.cachedNew_of_ok b seeds ⟨h1, h7, h8⟩, rfl, rfl, rfl, rfl, rfl, rfl,
+  exact ⟨_, Glue.cachedNew_of_ok b seeds ⟨h1, by omega, h8⟩, rfl, rfl, rfl, rfl, rfl, rfl,
     Glue.one_le_half_nextPower2 b.counters, rfl, rfl⟩
 
 theorem G17_construction_panics_iff (b : Glue.Builder) (seeds : List Nat) :
-    Glue.cachedNew b seeds = none ↔ ¬ (0 < b.counters ∧ 1 < b.shards ∧ Glue.isPow2 b.shards = true) :=
+    Glue.cachedNew b seeds = none ↔ ¬ (0 < b.counters ∧ 0 < b.shards ∧ Glue.isPow2 b.shards = true) :=
   Glue.cachedNew_eq_none_iff b seeds
 
 /-- end to end: whatever `ConfigBuilder` hands out, `CacheD::new` builds -/
